@@ -1,4 +1,636 @@
-//! stream `attr` — not implemented yet
-pub fn handle(_args: &[&str]) -> Option<String> {
+//! stream `attr` (C08): the `#[asn(..)]` attribute printer of the code generator and the attribute
+//! parser of the proc macro, called on the real code.
+//!
+//!   attr print <spec>                 spec -> RustType -> RustCodeGenerator -> attribute text -> tokens
+//!   attr rt <hex attr text> <hex ty>  attribute text -> proc_macro::parse_asn_definition -> spec
+//!   attr prt <spec>                   both in a row (what the macro reads back from what was printed)
+//!   attr reparse <hex module text>    whole pipeline, per definition, compared on Model<Rust>
+//!
+//! `spec` is a small prefix notation of the attribute-level type (asn::Type fragment), see `Spec`.
+use crate::util::*;
+use asn1rs::model::asn::{Asn, Charset, Range, Size, Tag, TagProperty, Type};
+use asn1rs::model::generate::rust::RustCodeGenerator;
+use asn1rs::model::parse::Tokenizer;
+use asn1rs::model::rust::{EncodingOrdering, Field, Rust, RustType};
+use asn1rs::model::{Definition, LiteralValue, Model};
+use proc_macro2::{Delimiter, TokenStream, TokenTree};
+use std::panic::{catch_unwind, AssertUnwindSafe};
+use std::str::FromStr;
+
+// ------------------------------------------------------------------------------------------ tokens
+
+fn canon_tokens(ts: TokenStream, out: &mut Vec<String>) {
+    for tt in ts {
+        match tt {
+            TokenTree::Ident(i) => out.push(format!("i:{}", i)),
+            TokenTree::Punct(p) => out.push(format!("p:{}", p.as_char())),
+            TokenTree::Literal(l) => {
+                let s = l.to_string();
+                if s.starts_with('"') {
+                    match syn::parse_str::<syn::LitStr>(&s) {
+                        Ok(v) => out.push(format!("s:{}", hex(v.value().as_bytes()))),
+                        Err(_) => out.push(format!("l:{}", hex(s.as_bytes()))),
+                    }
+                } else {
+                    out.push(format!("n:{}", s));
+                }
+            }
+            TokenTree::Group(g) => {
+                let (o, c) = match g.delimiter() {
+                    Delimiter::Parenthesis => ("(", ")"),
+                    Delimiter::Bracket => ("[", "]"),
+                    Delimiter::Brace => ("{", "}"),
+                    Delimiter::None => ("<", ">"),
+                };
+                out.push(o.to_string());
+                canon_tokens(g.stream(), out);
+                out.push(c.to_string());
+            }
+        }
+    }
+}
+
+// -------------------------------------------------------------------------------------------- spec
+
+/// spec ::= bool | null | int(min,max,ext,consts) | str(cs,size) | oct(size) | bits(size)
+///        | opt(spec) | def(spec,lit) | seqof(size,spec) | setof(size,spec) | ref(name,tag)
+/// min,max ::= none | <i64>;  ext ::= 0|1;  consts ::= - | NAME=<i64>{:NAME=<i64>}
+/// size ::= any | fix(n,ext) | range(a,b,ext);  tag ::= none | u<n> | a<n> | c<n> | p<n>
+/// lit ::= b0 | b1 | i<i64> | s<hex> | o<hex> | e<Type>.<Variant>
+fn spec_size(s: &Size) -> String {
+    match s {
+        Size::Any => "any".to_string(),
+        Size::Fix(n, e) => format!("fix({},{})", n, b01(*e)),
+        Size::Range(a, b, e) => format!("range({},{},{})", a, b, b01(*e)),
+    }
+}
+
+fn spec_tag(t: &Option<Tag>) -> String {
+    match t {
+        None => "none".to_string(),
+        Some(Tag::Universal(n)) => format!("u{}", n),
+        Some(Tag::Application(n)) => format!("a{}", n),
+        Some(Tag::ContextSpecific(n)) => format!("c{}", n),
+        Some(Tag::Private(n)) => format!("p{}", n),
+    }
+}
+
+fn spec_lit(l: &LiteralValue) -> String {
+    match l {
+        LiteralValue::Boolean(b) => format!("b{}", b01(*b)),
+        LiteralValue::Integer(i) => format!("i{}", i),
+        LiteralValue::String(s) => format!("s{}", hex(s.as_bytes())),
+        LiteralValue::OctetString(o) => format!("o{}", hex(o)),
+        LiteralValue::EnumeratedVariant(t, v) => format!("e{}.{}", t, v),
+    }
+}
+
+fn spec_opt_i64(v: &Option<i64>) -> String {
+    v.map(|v| v.to_string()).unwrap_or_else(|| "none".to_string())
+}
+
+fn spec_charset(c: Charset) -> &'static str {
+    match c {
+        Charset::Utf8 => "utf8",
+        Charset::Numeric => "numeric",
+        Charset::Printable => "printable",
+        Charset::Ia5 => "ia5",
+        Charset::Visible => "visible",
+    }
+}
+
+fn spec_type(t: &Type) -> String {
+    match t {
+        Type::Boolean => "bool".to_string(),
+        Type::Null => "null".to_string(),
+        Type::Integer(i) => format!(
+            "int({},{},{},{})",
+            spec_opt_i64(i.range.min()),
+            spec_opt_i64(i.range.max()),
+            b01(i.range.extensible()),
+            if i.constants.is_empty() {
+                "-".to_string()
+            } else {
+                i.constants.iter().map(|(n, v)| format!("{}={}", n, v)).collect::<Vec<_>>().join(":")
+            }
+        ),
+        Type::String(size, cs) => format!("str({},{})", spec_charset(*cs), spec_size(size)),
+        Type::OctetString(size) => format!("oct({})", spec_size(size)),
+        Type::BitString(b) => format!(
+            "bits({}){}",
+            spec_size(&b.size),
+            if b.constants.is_empty() { "".to_string() } else { "!consts".to_string() }
+        ),
+        Type::Optional(i) => format!("opt({})", spec_type(i)),
+        Type::Default(i, l) => format!("def({},{})", spec_type(i), spec_lit(l)),
+        Type::SequenceOf(i, s) => format!("seqof({},{})", spec_size(s), spec_type(i)),
+        Type::SetOf(i, s) => format!("setof({},{})", spec_size(s), spec_type(i)),
+        Type::TypeReference(n, tag) => format!("ref({},{})", n.replace(' ', ""), spec_tag(tag)),
+        Type::Sequence(_) => "sequence".to_string(),
+        Type::Set(_) => "set".to_string(),
+        Type::Enumerated(_) => "enumerated".to_string(),
+        Type::Choice(_) => "choice".to_string(),
+    }
+}
+
+fn spec_role(a: &Asn) -> String {
+    format!(
+        "{};{}{}",
+        spec_type(&a.r#type),
+        spec_tag(&a.tag),
+        a.default.as_ref().map(|d| format!(";default={}", spec_lit(d))).unwrap_or_default()
+    )
+}
+
+struct P<'a> {
+    s: &'a [u8],
+    i: usize,
+}
+
+impl<'a> P<'a> {
+    fn eat(&mut self, lit: &str) -> bool {
+        if self.s[self.i..].starts_with(lit.as_bytes()) {
+            self.i += lit.len();
+            true
+        } else {
+            false
+        }
+    }
+    fn expect(&mut self, lit: &str) -> Option<()> {
+        if self.eat(lit) {
+            Some(())
+        } else {
+            None
+        }
+    }
+    fn until(&mut self, stops: &[u8]) -> &'a str {
+        let start = self.i;
+        while self.i < self.s.len() && !stops.contains(&self.s[self.i]) {
+            self.i += 1;
+        }
+        std::str::from_utf8(&self.s[start..self.i]).unwrap_or("")
+    }
+    fn opt_i64(&mut self) -> Option<Option<i64>> {
+        let t = self.until(b",)");
+        if t == "none" {
+            Some(None)
+        } else {
+            t.parse().ok().map(Some)
+        }
+    }
+    fn flag(&mut self) -> Option<bool> {
+        pbool(self.until(b",)"))
+    }
+    fn size(&mut self) -> Option<Size> {
+        if self.eat("any") {
+            Some(Size::Any)
+        } else if self.eat("fix(") {
+            let n = self.until(b",").parse().ok()?;
+            self.expect(",")?;
+            let e = self.flag()?;
+            self.expect(")")?;
+            Some(Size::Fix(n, e))
+        } else if self.eat("range(") {
+            let a = self.until(b",").parse().ok()?;
+            self.expect(",")?;
+            let b = self.until(b",").parse().ok()?;
+            self.expect(",")?;
+            let e = self.flag()?;
+            self.expect(")")?;
+            Some(Size::Range(a, b, e))
+        } else {
+            None
+        }
+    }
+    fn tag(&mut self) -> Option<Option<Tag>> {
+        let t = self.until(b",);");
+        if t == "none" {
+            return Some(None);
+        }
+        let n: usize = t.get(1..)?.parse().ok()?;
+        Some(Some(match t.as_bytes()[0] {
+            b'u' => Tag::Universal(n),
+            b'a' => Tag::Application(n),
+            b'c' => Tag::ContextSpecific(n),
+            b'p' => Tag::Private(n),
+            _ => return None,
+        }))
+    }
+    fn lit(&mut self) -> Option<LiteralValue> {
+        let t = self.until(b",)");
+        let (k, rest) = (t.as_bytes().first()?, t.get(1..)?);
+        Some(match k {
+            b'b' => LiteralValue::Boolean(pbool(rest)?),
+            b'i' => LiteralValue::Integer(rest.parse().ok()?),
+            b's' => LiteralValue::String(String::from_utf8(unhex(rest)?).ok()?),
+            b'o' => LiteralValue::OctetString(unhex(rest)?),
+            b'e' => {
+                let (a, b) = rest.split_once('.')?;
+                LiteralValue::EnumeratedVariant(a.to_string(), b.to_string())
+            }
+            _ => return None,
+        })
+    }
+    /// (type, constants of the outermost-non-optional integer)
+    fn ty(&mut self, consts: &mut Vec<(String, String)>) -> Option<RustType> {
+        if self.eat("bool") {
+            Some(RustType::Bool)
+        } else if self.eat("null") {
+            Some(RustType::Null)
+        } else if self.eat("int(") {
+            let min = self.opt_i64()?;
+            self.expect(",")?;
+            let max = self.opt_i64()?;
+            self.expect(",")?;
+            let ext = self.flag()?;
+            self.expect(",")?;
+            let cs = self.until(b")");
+            if cs != "-" {
+                for c in cs.split(':') {
+                    let (n, v) = c.split_once('=')?;
+                    consts.push((n.to_string(), v.to_string()));
+                }
+            }
+            self.expect(")")?;
+            match (min, max) {
+                (Some(a), Some(b)) => Some(RustType::I64(Range(a, b, ext))),
+                (a, b) => {
+                    if a.unwrap_or(0) < 0 || b.unwrap_or(0) < 0 {
+                        return None;
+                    }
+                    Some(RustType::U64(Range(a.map(|v| v as u64), b.map(|v| v as u64), ext)))
+                }
+            }
+        } else if self.eat("str(") {
+            let cs = match self.until(b",") {
+                "utf8" => Charset::Utf8,
+                "numeric" => Charset::Numeric,
+                "printable" => Charset::Printable,
+                "ia5" => Charset::Ia5,
+                "visible" => Charset::Visible,
+                _ => return None,
+            };
+            self.expect(",")?;
+            let size = self.size()?;
+            self.expect(")")?;
+            Some(RustType::String(size, cs))
+        } else if self.eat("oct(") {
+            let size = self.size()?;
+            self.expect(")")?;
+            Some(RustType::VecU8(size))
+        } else if self.eat("bits(") {
+            let size = self.size()?;
+            self.expect(")")?;
+            Some(RustType::BitVec(size))
+        } else if self.eat("opt(") {
+            let inner = self.ty(consts)?;
+            self.expect(")")?;
+            Some(RustType::Option(Box::new(inner)))
+        } else if self.eat("def(") {
+            let inner = self.ty(consts)?;
+            self.expect(",")?;
+            let l = self.lit()?;
+            self.expect(")")?;
+            Some(RustType::Default(Box::new(inner), l))
+        } else if self.eat("seqof(") || self.eat("setof(") {
+            let keep = &self.s[self.i - 6..self.i - 1] == b"seqof";
+            let size = self.size()?;
+            self.expect(",")?;
+            let inner = self.ty(consts)?;
+            self.expect(")")?;
+            Some(RustType::Vec(
+                Box::new(inner),
+                size,
+                if keep { EncodingOrdering::Keep } else { EncodingOrdering::Sort },
+            ))
+        } else if self.eat("ref(") {
+            let name = self.until(b",").to_string();
+            self.expect(",")?;
+            let tag = self.tag()?;
+            self.expect(")")?;
+            Some(RustType::Complex(name, tag))
+        } else {
+            None
+        }
+    }
+}
+
+/// `<type spec>;<tag>` -> a one-field struct definition as the converter would build it
+fn definition_of_spec(spec: &str) -> Option<Definition<Rust>> {
+    let mut p = P { s: spec.as_bytes(), i: 0 };
+    let mut consts = Vec::new();
+    let ty = p.ty(&mut consts)?;
+    p.expect(";")?;
+    let tag = p.tag()?;
+    if p.i != p.s.len() {
+        return None;
+    }
+    let mut field = Field::from_name_type("f", ty).with_constants(consts);
+    if let Some(t) = tag {
+        field.set_tag(t);
+    }
+    Some(Definition(
+        "S".to_string(),
+        Rust::Struct {
+            ordering: EncodingOrdering::Keep,
+            fields: vec![field],
+            tag: None,
+            extension_after: None,
+        },
+    ))
+}
+
+// ------------------------------------------------------------------------- generated text handling
+
+/// text the real generator prints for a module that consists of this one definition
+fn generate(def: &Definition<Rust>) -> String {
+    use asn1rs::model::generate::Generator;
+    let mut g = RustCodeGenerator::default();
+    g.add_model(Model {
+        name: "m".to_string(),
+        oid: None,
+        imports: Vec::new(),
+        definitions: vec![def.clone()],
+        value_references: Vec::new(),
+    });
+    g.to_string().unwrap().into_iter().map(|(_, c)| c).collect::<Vec<_>>().join("\n")
+}
+
+/// end (exclusive) of the `#[...]` starting at s[0..], string literals skipped
+fn attr_end(s: &str) -> Option<usize> {
+    let b = s.as_bytes();
+    let mut depth = 0i32;
+    let mut i = 1;
+    let mut in_str = false;
+    while i < b.len() {
+        let c = b[i];
+        if in_str {
+            if c == b'\\' {
+                i += 1;
+            } else if c == b'"' {
+                in_str = false;
+            }
+        } else if c == b'"' {
+            in_str = true;
+        } else if c == b'[' || c == b'(' {
+            depth += 1;
+        } else if c == b']' || c == b')' {
+            depth -= 1;
+            if depth == 0 && c == b']' {
+                return Some(i + 1);
+            }
+        }
+        i += 1;
+    }
     None
+}
+
+/// splits the text of a generated module into its definitions: (header attribute content, item
+/// text without the header attribute), in order.  An item starts at a top-level line `#[asn(`
+/// and ends before the first following top-level `impl`.
+fn items_of(code: &str) -> Vec<(String, String)> {
+    let mut out = Vec::new();
+    let lines: Vec<&str> = code.lines().collect();
+    let mut i = 0;
+    while i < lines.len() {
+        if lines[i].starts_with("#[asn(") {
+            let header = lines[i].trim();
+            let inner = header
+                .strip_prefix("#[asn(")
+                .and_then(|s| s.strip_suffix(")]"))
+                .unwrap_or("")
+                .to_string();
+            let mut body = String::new();
+            i += 1;
+            while i < lines.len() && !lines[i].starts_with("impl") && !lines[i].starts_with("#[asn(") {
+                body.push_str(lines[i]);
+                body.push('\n');
+                i += 1;
+            }
+            out.push((inner, body));
+        } else {
+            i += 1;
+        }
+    }
+    out
+}
+
+/// attribute text of the single field of the struct printed for `definition_of_spec`
+fn field_attribute(code: &str) -> Option<String> {
+    for l in code.lines() {
+        let t = l.trim_start();
+        if l.starts_with(' ') && t.starts_with("#[asn(") {
+            let e = attr_end(t)?;
+            return Some(t["#[asn(".len()..e - 2].to_string());
+        }
+    }
+    None
+}
+
+fn reparse_item(header: &str, body: &str) -> Result<Option<Definition<Asn>>, String> {
+    let attr = TokenStream::from_str(header).map_err(|_| "lex".to_string())?;
+    let item = TokenStream::from_str(body).map_err(|_| "lex".to_string())?;
+    match asn1rs::model::proc_macro::parse_asn_definition(attr, item) {
+        Ok((d, _)) => Ok(d),
+        Err(_) => Err("parse".to_string()),
+    }
+}
+
+fn nice_lit(t: &mut RustType) {
+    match t {
+        RustType::Default(inner, lit) => {
+            if let LiteralValue::EnumeratedVariant(ty, var) = lit {
+                *ty = asn1rs::model::rust::rust_struct_or_enum_name(ty);
+                *var = asn1rs::model::rust::rust_variant_name(var);
+            }
+            nice_lit(inner);
+        }
+        RustType::Option(inner) => nice_lit(inner),
+        RustType::Vec(inner, ..) => nice_lit(inner),
+        _ => {}
+    }
+}
+
+fn nice_enum_defaults(Definition(name, rust): Definition<Rust>) -> Definition<Rust> {
+    Definition(
+        name,
+        match rust {
+            Rust::Struct { ordering, fields, tag, extension_after } => Rust::Struct {
+                ordering,
+                fields: fields
+                    .into_iter()
+                    .map(|f| {
+                        let mut ty = f.r#type().clone();
+                        nice_lit(&mut ty);
+                        let mut g = Field::from_name_type(f.name(), ty).with_constants(f.constants().to_vec());
+                        if let Some(t) = f.tag() {
+                            g.set_tag(t);
+                        }
+                        g
+                    })
+                    .collect(),
+                tag,
+                extension_after,
+            },
+            Rust::TupleStruct { mut r#type, tag, constants } => {
+                nice_lit(&mut r#type);
+                Rust::TupleStruct { r#type, tag, constants }
+            }
+            other => other,
+        },
+    )
+}
+
+fn sanitize(s: &str) -> String {
+    s.chars()
+        .map(|c| if c.is_whitespace() { '_' } else { c })
+        .collect::<String>()
+}
+
+/// first place where two Debug renderings differ, a window of each
+fn first_diff(a: &str, b: &str) -> String {
+    let (ab, bb) = (a.as_bytes(), b.as_bytes());
+    let mut i = 0;
+    while i < ab.len() && i < bb.len() && ab[i] == bb[i] {
+        i += 1;
+    }
+    let start = a[..i].rfind(|c: char| c == ' ' || c == '(' || c == '{').map(|p| p + 1).unwrap_or(0);
+    let wa: String = a[start..].chars().take(70).collect();
+    let wb: String = b[start.min(b.len())..].chars().take(70).collect();
+    sanitize(&format!("{}=>{}", wa, wb))
+}
+
+pub fn handle(args: &[&str]) -> Option<String> {
+    crate::names::quiet(|| handle_loud(args))
+}
+
+fn handle_loud(args: &[&str]) -> Option<String> {
+    Some(match args {
+        ["print", spec] => {
+            let def = definition_of_spec(spec)?;
+            let code = generate(&def);
+            let attr = match field_attribute(&code) {
+                Some(a) => a,
+                None => return Some("err extract".to_string()),
+            };
+            match TokenStream::from_str(&attr) {
+                Ok(ts) => {
+                    let mut out = Vec::new();
+                    canon_tokens(ts, &mut out);
+                    format!("ok {}", out.join(" "))
+                }
+                Err(_) => "err lex".to_string(),
+            }
+        }
+        ["rt", attr_hex, ty_hex] => {
+            let attr = String::from_utf8(unhex(attr_hex)?).ok()?;
+            let ty = String::from_utf8(unhex(ty_hex)?).ok()?;
+            let body = format!("pub struct S {{ #[asn({})] pub f: {}, }}", attr, ty);
+            match reparse_item("sequence", &body) {
+                Ok(Some(Definition(_, asn))) => match &asn.r#type {
+                    Type::Sequence(c) if c.fields.len() == 1 => format!("ok {}", spec_role(&c.fields[0].role)),
+                    _ => "err shape".to_string(),
+                },
+                Ok(None) => "err none".to_string(),
+                Err(e) => format!("err {}", e),
+            }
+        }
+        ["prt", spec] => {
+            let def = definition_of_spec(spec)?;
+            let code = generate(&def);
+            let items = items_of(&code);
+            let (header, body) = items.first()?;
+            match reparse_item(header, body) {
+                Ok(Some(Definition(_, asn))) => match &asn.r#type {
+                    Type::Sequence(c) if c.fields.len() == 1 => format!("ok {}", spec_role(&c.fields[0].role)),
+                    _ => "err shape".to_string(),
+                },
+                Ok(None) => "err none".to_string(),
+                Err(e) => format!("err {}", e),
+            }
+        }
+        ["reparse", module_hex] | ["reparse", module_hex, _] => {
+            let text = String::from_utf8(unhex(module_hex)?).ok()?;
+            let front = catch_unwind(AssertUnwindSafe(|| {
+                let tokens = Tokenizer.parse(&text);
+                let model = Model::try_from(tokens).map_err(|_| "err parse")?;
+                model.try_resolve().map_err(|_| "err resolve")
+            }));
+            let model = match front {
+                Ok(Ok(m)) => m,
+                Ok(Err(e)) => return Some(e.to_string()),
+                Err(_) => return Some("panic front".to_string()),
+            };
+            let gen = catch_unwind(AssertUnwindSafe(|| {
+                use asn1rs::model::generate::Generator;
+                let rust = model.to_rust();
+                let code = RustCodeGenerator::from(rust.clone())
+                    .to_string()
+                    .unwrap()
+                    .into_iter()
+                    .map(|(_, c)| c)
+                    .collect::<Vec<_>>()
+                    .join("\n");
+                (rust, code)
+            }));
+            let (rust, code) = match gen {
+                Ok(v) => v,
+                Err(_) => return Some("panic gen".to_string()),
+            };
+            let items = items_of(&code);
+            if items.len() != rust.definitions.len() {
+                return Some(format!("err items {} {}", items.len(), rust.definitions.len()));
+            }
+            let mut choice_tags = 0usize;
+            for ((header, body), original) in items.iter().zip(rust.definitions.iter()) {
+                let re = catch_unwind(AssertUnwindSafe(|| reparse_item(header, body)));
+                let re = match re {
+                    Ok(Ok(Some(d))) => d,
+                    Ok(Ok(None)) => return Some(format!("err reparse-none {}", original.0)),
+                    Ok(Err(e)) => return Some(format!("err reparse-{} {}", e, original.0)),
+                    Err(_) => return Some(format!("panic reparse {}", original.0)),
+                };
+                let back = catch_unwind(AssertUnwindSafe(|| {
+                    let m = Model {
+                        name: rust.name.clone(),
+                        oid: None,
+                        imports: rust.imports.clone(),
+                        definitions: vec![re],
+                        value_references: Vec::new(),
+                    };
+                    m.to_rust_keep_names().definitions
+                }));
+                let mut back = match back {
+                    Ok(b) => b,
+                    Err(_) => return Some(format!("panic to-rust {}", original.0)),
+                };
+                if back.len() != 1 {
+                    return Some(format!("ok diff {} definitions:{}", original.0, back.len()));
+                }
+                let mut back = back.remove(0);
+                // a DEFAULT naming an ENUMERATED item keeps the ASN.1 spelling in the generator's
+                // model and is printed (and read back) with the mangled names: same default
+                let original = &nice_enum_defaults(original.clone());
+                if &back != original {
+                    // the macro derives the tag of an untagged CHOICE itself
+                    if let (Rust::DataEnum(o), Rust::DataEnum(b)) = (&original.1, &mut back.1) {
+                        if o.tag().is_none() && b.tag().is_some() {
+                            b.reset_tag();
+                            if &back == original {
+                                choice_tags += 1;
+                                continue;
+                            }
+                        }
+                    }
+                    return Some(format!(
+                        "ok diff {} {}",
+                        original.0,
+                        first_diff(&format!("{:?}", original), &format!("{:?}", back))
+                    ));
+                }
+            }
+            format!("ok same {} choicetag:{}", rust.definitions.len(), choice_tags)
+        }
+        _ => return None,
+    })
 }
